@@ -72,7 +72,10 @@ fn conversion_case(grease: bool) {
         UniStreamHeader::Control(settings).encode(&mut w);
         64 - w.len()
     };
-    assert!(written <= 64, "c13.encode.fits_write_buffer");
+    // the buffer WriteBuf encodes stream type + frame header into (h3/src/stream.rs: WRITE_BUF_ENCODE_SIZE, private) is
+    // defined as the sum of these two public constants; a SETTINGS frame that does not fit panics at connection set-up
+    let write_buf_size = h3::proto::stream::StreamType::MAX_ENCODED_SIZE + Frame::<PayloadLen>::MAX_ENCODED_SIZE;
+    assert!(written <= write_buf_size, "c13.encode.fits_write_buffer");
     assert!(out[0] == 0x00, "c13.encode.control_stream_type_first");
     assert!(out[1] == 0x04, "c13.encode.settings_frame_type");
     let (plen, ln) = var_at(&out, 2, written).unwrap();
